@@ -13,6 +13,8 @@
      A s1 | s2 ...              ->  for each string, for every position 0..len, the 7 values of anchor_ok
                                     (bos eos bol eol bow eow nwb) as 0/1, positions separated by ","
      X from to                  ->  expand_reps: c/C = copy without/with submatches, o/O = optional copy, S = star; to = number or i
+     Q ng | v1 | v2             ->  match_ge ng 0 v1 v2 as 0/1; ng: comma separated slot numbers or "_"; a vector: comma separated
+                                    numbers or x (not set)
      F HEX -> fold, W HEX -> is_word *)
 open Model
 open Common
@@ -130,6 +132,16 @@ let handle fields =
              let (r, left) = p_sre sre in
              if left <> [] then "ERR trailing sre tokens" else
              b2s (check_spans r (str_of s) (spans_of sp))
+         | _ -> "ERR fields")
+    | "Q" :: rest ->
+        let vec = function
+          | [s] -> List.map (fun t -> if t = "x" then None else Some (nat_of_int (int_of_string t))) (String.split_on_char ',' s)
+          | _ -> raise (Parse "vector field") in
+        (match split_bar [] [] rest with
+         | [ng; v1; v2] ->
+             let ng = match ng with ["_"] -> [] | [s] -> List.map (fun t -> nat_of_int (int_of_string t)) (String.split_on_char ',' s)
+                                    | _ -> raise (Parse "ng field") in
+             b2s (match_ge ng O (vec v1) (vec v2))
          | _ -> "ERR fields")
     | ["X"; a; b] ->
         let t = if b = "i" then None else Some (nat_of_int (int_of_string b)) in
